@@ -31,6 +31,7 @@ type Prog struct {
 	storesTo     map[ssa.Value][]*ssa.Store // Alloc -> stores (whole program, lazily per function tree)
 	storesDone   map[*ssa.Function]bool
 	valID        map[ssa.Value]int
+	helperMemo   map[string]bool
 	NPkgs        int
 }
 
